@@ -2,8 +2,47 @@
 # The verified checker wf_report_b (Properties/C05.v) is applied to every report the implementation
 # produces for worlds with and without ANP/BANP, focus on/off; the peers list is also compared with
 # the model's IP partition.
-from . import c01
+import re
+from . import c01, c10
 from .lib import core, gen, listcorr
+from .lib.core import cnat
+
+
+def ingress_phase(run, h, n):
+    """reports of worlds WITH Services / Ingresses / Routes (the {ingress-controller} lines are entries too): the verified checker on each"""
+    cases = [(i, c10.gen_case(run.rng)[0]) for i in range(n)]
+    cmds, info = [], {}
+    for cid, W in cases:
+        ms = [m for m, _ in gen.docs(W)] + [c10.manifest(o) for o in W['ingress_objs']]
+        d = h.dir_for('i%d' % cid)
+        gen.write_dir(d, ms)
+        cmds.append({'id': str(cid), 'cmd': 'list', 'dir': d})
+        info[cid] = (W, ms)
+    outs = h.run(cmds)
+    rows = []
+    for (cid, W), o in zip(cases, outs):
+        run.count(1)
+        if o['outcome'] == 'panic':
+            run.report(None, 'ing-panic-%d' % cid, {'kind': 'ingress-wf', 'world': W, 'manifests': info[cid][1]}, 'list panicked')
+        elif o['outcome'] == 'ok':
+            if any(e['src'] == '{ingress-controller}' for e in o['conns']):
+                run.nontrivial(['ingress', W])
+            rows.append('(%s, %s)' % (cnat(cid), gen.c_obs_list(o)))
+            info[cid] = (W, info[cid][1], o)
+    text = ['From Coq Require Import List ZArith String.', 'From NP Require Import IntervalSet ConnSet World Build Connlist.',
+            'Import ListNotations.', 'Open Scope Z_scope.', 'Definition wcases : list (nat * obs_list) := [', ';\n'.join(rows), '].',
+            'Definition WM := Eval vm_compute in flat_map (fun c => match snd c with ObsOk es ps _ => '
+            'if wf_report_b es ps [RW "{ingress-controller}"%string] then [] else [(fst c, 6%nat)] | _ => [] end) wcases.', 'Print WM.']
+    rc, out, err = core.run_coq_text('\n'.join(text))
+    if rc != 0:
+        raise RuntimeError('coqc on ingress wf cases failed: ' + err[-1500:])
+    wm = core.parse_pairs(out, 'WM')
+    if wm is None:
+        raise RuntimeError('no WM in coqc output')
+    for cid, _ in wm[:3]:
+        W, ms, o = info[cid]
+        run.report(None, 'ing-wf-%d' % cid, {'kind': 'ingress-wf', 'world': W, 'manifests': ms, 'report': o['conns']},
+                   'the report of an input with Services/Ingresses/Routes is not a well-formed canonical relation (duplicate pair, self or IP-IP pair, empty or non-canonical connection, or IP peers not tiling the address space)')
 
 
 def nontrivial(W, obs):
@@ -38,9 +77,29 @@ def main(tier):
                 return ''
             c01.run_worlds(run, h, worlds, prop_codes=(3, 5), wf_prop=True, nontriv=nontrivial, focus_of=focus_of)
             k += shard
+        if len(run.violations) < 3:
+            ingress_phase(run, h, 200 if tier == "quick" else 3000)
     finally:
         h.close()
     return run.finish()
 
 
-replay = c01.replay
+def replay(payload):
+    if payload.get('kind') != 'ingress-wf':
+        return c01.replay(payload)
+    run = core.Run('C05', 'quick')
+    run.stage_proofs()
+    core.build_go(['verifapi'], run.log)
+    h = listcorr.Harness()
+    try:
+        d = h.dir_for('r')
+        gen.write_dir(d, payload['manifests'])
+        o = h.run([{'id': 'r', 'cmd': 'list', 'dir': d}])[0]
+        run.count(1)
+        keys = [(e['src'], e['dst']) for e in o.get('conns') or []]
+        if o['outcome'] == 'ok' and (len(set(keys)) != len(keys) or any(a == b for a, b in keys) or
+                                     any(not e['conn']['all'] and not any(e['conn']['pp'].values()) for e in o['conns'])):
+            run.report(None, 'replay', payload, 'report is not a well-formed relation')
+    finally:
+        h.close()
+    return run.finish()
